@@ -30,6 +30,8 @@ DECIDED_MORE = ('Also: a proper head of the pending CRLFCRLF continuation is cut
 DECIDED = DECIDED + ' ' + DECIDED_MORE
 DECIDED_R6 = ('Round 6: offset-or-minus-one tested with >= 0; dispatch-table entries called with the arguments they take; header end of a completed cut terminator as a linear identity; the saved section method belongs to an object bound in __init__ only.')
 DECIDED = DECIDED + ' ' + DECIDED_R6
+DECIDED_R7 = ('Round 7: fixed-width windows reject only after a length test; bytes never compared with an element of bytes; every header-end exit has reset the eater; method values compared with ==.')
+DECIDED = DECIDED + ' ' + DECIDED_R7
 NOT_DECIDED = ('that these are the *only* sources of split dependence: equality of the markup over all divisions of all bodies is '
                'an equivalence of runtime values (e.g. absolute-offset arithmetic of the first section when the opening '
                'delimiter itself is cut is not decided).')
